@@ -37,9 +37,9 @@ UNIVARIATE = ("ADWIN", "CUSUM", "PageHinkley", "CDBD")
 DETS = {"KdqTreeStreaming": 12, "KdqTreeBatch": 12, "PCACD": 10, "ADWIN": 30, "CUSUM": 30, "PageHinkley": 30, "DDM": 24, "EDDM": 24,
         "STEPD": 20, "LinearFourRates": 8, "ADWINAccuracy": 16, "HDDDM": 24, "CDBD": 20, "NNDVI": 14}
 HEAVY = ["KdqTreeStreaming", "KdqTreeBatch", "PCACD"]
-X_KINDS = ["rows2", "rows2_df", "rows2_df_other_names", "rows0", "width+1", "width-1", "df_width+1", "renamed", "multicol", "multicol_1d", "multicol_series", "multicol_df"]
+X_KINDS = ["rows2", "rows2_df", "rows2_df_other_names", "rows0", "width+1", "width-1", "df_width+1", "renamed", "renamed_str", "multicol", "multicol_1d", "multicol_series", "multicol_df"]
 Y_KINDS = ["y_true_multi", "y_pred_multi", "y_true_empty", "y_pred_empty"]
-B_KINDS = ["rows1", "rows1_df", "rows1_df_other_names", "width+1", "width-1", "df_width+1", "renamed", "multicol"]
+B_KINDS = ["rows1", "rows1_df", "rows1_df_other_names", "width+1", "width-1", "df_width+1", "renamed", "renamed_str", "multicol"]
 ALL_KINDS = X_KINDS + Y_KINDS + [k for k in B_KINDS if k not in X_KINDS]
 ALL_KINDS = ALL_KINDS + ["ref:" + k for k in B_KINDS]   # the same malformed payload handed to set_reference
 
@@ -122,6 +122,7 @@ def gen(rng, scenario, tier):
         L = len(ev)
         pos = sorted(set([0, 1, L - 1, L] + rng.sample(range(L + 1), min(8, L))))
         case["positions"] = pos  # slow detectors: a seeded subset of positions (stated in evidence notes)
+    case["int_names"] = rng.random() < 0.25
     return case
 
 
@@ -203,6 +204,8 @@ def bad_x(k, kind, d, nrows, names_established):
         return pd.DataFrame(fill(n, d + 1), columns=NAMES[: d + 1] if d + 1 <= len(NAMES) else None)
     if kind == "renamed" and names_established:
         return pd.DataFrame(fill(n, d), columns=["q", "r", "s", "t"][:d])
+    if kind == "renamed_str" and names_established and not all(isinstance(c, str) for c in cols):
+        return pd.DataFrame(fill(n, d), columns=[str(c) for c in cols])      # integer labels 0, 1, .. replaced by the strings "0", "1", ..
     if kind == "multicol":
         return fill(n, 2)
     if kind == "multicol_1d" and k != "batch":
@@ -266,7 +269,7 @@ def _applicable(name, k, pos, events):
     for kind in (B_KINDS if k == "batch" else X_KINDS):
         if kind in ("width+1", "width-1", "df_width+1") and not width_est:
             continue
-        if kind == "renamed" and not names_est:
+        if kind in ("renamed", "renamed_str") and not names_est:
             continue
         if kind.startswith("multicol") and (name not in UNIVARIATE or (width_est and kind == "multicol")):
             continue  # (2-D multicol after an accepted input is the same as width+1)
@@ -380,6 +383,16 @@ def _run_single(ctx, name, cfg, k, events, pos, kind, base):
 
 
 def run(case, ctx):
+    # one history in four labels its DataFrame columns 0, 1, 2, .. (a frame built over an array) instead of "a", "b", ..
+    keep = list(NAMES)
+    NAMES[:] = [0, 1, 2, 3] if case.get("int_names") else ["a", "b", "c", "d"]
+    try:
+        _run(case, ctx)
+    finally:
+        NAMES[:] = keep
+
+
+def _run(case, ctx):
     name, cfg, events = case["det"], case["cfg"], case["events"]
     k = adapters.kind(name)
     raw_b = []
